@@ -719,7 +719,8 @@ FRAGS = {
     'expr': ['a', 'a + b', 'a, b', 'a,\n"éé", b, # c', 'a,\n"éé", b # comment', '(a, b)', 'f(x)', 'a if b else c',
              'lambda: x', '[i for i in j]', '"s" "t"', 'a\\\n+ b', 'a  # c', '# c\na', 'é + ü', 'x := 1', 'yield y',
              'a.b[c](d)', '-x ** 2', 'not a', 'a < b < c', '{**k}', 'a,', '*a, b', 'await z', "f'{x=}'",
-             '(\na\n)', 'a\n', '\na', 'a b', 'a +', ') + (', 'a)', '(a', '', 'x = 1', 'pass'],
+             '(\na\n)', 'a\n', '\na', 'a b', 'a +', ') + (', 'a)', '(a', '', 'x = 1', 'pass', 'a;', 'a \\\n;', 'a # c\n;',
+             'f(x) \\\n ;'],
     'expr_all': ['*a', '*a,', '*a\n ,', '*abc\n  \\\n   ,', '*a # comment\n ,', 'a:b', 'a:b, c', '*a, b:c', 'a', 'a b',
                  'b].c[d', 'b](c)[d'],
     'expr_slice': ['a', 'a:b', 'a:b:c', ':', 'a:b, c', '*a', 'a,', 'a b', '', 'b].c[d', 'b](c)[d', 'b][c'],
@@ -729,7 +730,8 @@ FRAGS = {
     'pattern': ['a', '1', 'a | b', 'a, b', 'a,\n"éé", b, # c', '[a, *b]', '{1: x, **r}', 'C(a, k=b)', 'a as b',
                 '*a', '_', 'None', '-1', '1+2j', 'a.b', '(a)', 'a b', 'a |', '', 'a if x', 'a | b if x', 'a, b if x',
                 '1 if x'],
-    'withitem': ['a', 'a as b', 'a as (b, c)', '(a) as b', 'a, b', 'a as', 'f(x) as y  # c', ''],
+    'withitem': ['a', 'a as b', 'a as (b, c)', '(a) as b', 'a, b', 'a as', 'f(x) as y  # c', '', 'yield from g', 'yield g',
+                 'x := 1', '(yield from g)', '(yield g) as h', '(x := 1)'],
     'comprehension': ['for a in b', 'for a in b if c', 'async for a in b', 'for a, b in c if d if e',
                       'for a in b for c in d', 'for a', 'for a in b)', 'for é in ü', ''],
 }
@@ -831,6 +833,9 @@ def _c05_fragments(self):
                 if mode == 'pattern' and isinstance(node, ast.MatchSequence) and pre.endswith('(\n') and \
                         not frag.lstrip().startswith(('(', '[')):
                     continue
+                if mode == 'withitem' and isinstance(getattr(node, 'context_expr', None), (ast.Yield, ast.YieldFrom, ast.NamedExpr)) \
+                        and not frag.lstrip().startswith('('):
+                    continue   # only valid because of the embedding's own parentheses: `with yield x: pass` is a SyntaxError
                 # the embedding must not have let the fragment escape its slot
                 if _escaped(pre + frag + post, node, frag) and not getattr(node, '_structure_only', False):
                     continue
@@ -879,6 +884,57 @@ def _c05_fragments(self):
             if v and ': type Store' not in v and 'ctx' not in v:
                 self.fail('C05', f'frag.tree:{tag}', f'FST({frag!r}, {mode!r}) differs from what CPython produces for the '
                           f'fragment inside its natural embedding (positions relative to the fragment): {v}')
+
+
+    # block-level fragments (indent-based wrappers): every expression node of the result must sit exactly on the text
+    # that denotes it - judged by CPython on the text at the node's own coordinates
+    for mode, frags in BLOCK_FRAGS.items():
+        for frag in frags:
+            self.ev += 1
+            tag = f'{mode}:{frag!r}'
+            try:
+                got = FST(frag, mode)
+            except Exception as e:
+                self.fail('C05', f'blockfrag.reject:{tag}', f'FST({frag!r}, {mode!r}) raised {e!r}')
+                continue
+            self.distinct.add(('blockfrag', mode, frag))
+            if got.src != frag:
+                self.fail('C05', f'blockfrag.lossless:{tag}', f'FST({frag!r}, {mode!r}).src is {got.src!r}')
+                continue
+            instr = set()
+            for j in ast.walk(got.a):
+                if isinstance(j, (ast.JoinedStr,)):
+                    instr.update(id(x) for x in ast.walk(j) if x is not j)
+            for a in ast.walk(got.a):
+                if not isinstance(a, ast.expr) or isinstance(a, (ast.Starred, ast.Slice)) or id(a) in instr:
+                    continue
+                try:
+                    seg = ast.get_source_segment(frag, a)
+                    back = ast.parse('(\n' + seg + '\n)', mode='eval').body if seg is not None else None
+                except (SyntaxError, ValueError, IndexError):
+                    back = None
+                want = ast.dump(a).replace('Store()', 'Load()').replace('Del()', 'Load()')
+                if back is None or ast.dump(back) != want:
+                    self.fail('C05', f'blockfrag.positions:{tag}:{a.__class__.__name__}@{a.lineno}:{a.col_offset}',
+                              f'FST({frag!r}, {mode!r}): the {a.__class__.__name__} at ({a.lineno}, {a.col_offset})-'
+                              f'({a.end_lineno}, {a.end_col_offset}) does not sit on the text that denotes it '
+                              f'(text there: {seg!r})')
+                    break
+
+
+BLOCK_FRAGS = {
+    '_match_cases': ['case 1: pass', 'case 1:\n x = """a\nb""", (c,\n  d)\ncase 2: pass',
+                     'case 1:\n x = """a\nb""", [c,\n  d], e\n y = g("""p\nq""".r(s,\n   t).u, v)\ncase 2: pass',
+                     'case [a, b] if c:\n  y = f("""p\n q""" + r,\n    s)\n  z = 1',
+                     'case {1: a}:\n  v = \'\'\'é\né\'\'\', (é,\n é)'],
+    'match_case': ['case 1:\n x = """a\nb""", (c,\n  d)', 'case 1:\n x = """a\nb""", [c,\n  d], e', 'case a | b:\n  w = (1,\n 2)'],
+    '_ExceptHandlers': ['except E:\n x = """a\nb""", (c,\n  d)\nexcept F as g: pass',
+                        'except E:\n x = """a\nb""", [c,\n  d], e\nexcept F as g: pass',
+                        'except (A,\n  B): pass'],
+    'ExceptHandler': ['except E as e:\n x = """a\nb""", (c,\n  d)'],
+    'stmts': ['x = """a\nb""", (c,\n  d)\ny = 2', 'if q:\n x = """a\nb""", [c,\n  d], e', 'if a:\n  x = """a\n b""" + (c,\n d)[0]\nelse:\n  pass'],
+    'stmt': ['x = """a\nb""", (c,\n  d)'],
+}
 
 
 R.c05_fragments = _c05_fragments
